@@ -1,0 +1,17 @@
+//! Verification hooks (C16): the external factorisations `Whitener::fit` calls (linfa-linalg, non-`blas`
+//! build), for a caller that does not depend on `linfa-linalg` itself: the harness hands their results to the
+//! Lean model of the assembly that follows (floors, `cov_scale / s`). Add-only, compiled with `--cfg linfa_verif`.
+use linfa_linalg::svd::SVD;
+use ndarray::{Array1, Array2};
+
+/// `sigma.svd(false, true)` of the PCA branch: singular values and `V^T`
+pub fn svd_s_vt(sigma: Array2<f64>) -> Option<(Array1<f64>, Array2<f64>)> {
+    let (_, s, v_t) = sigma.svd(false, true).ok()?;
+    Some((s, v_t?))
+}
+
+/// `sigma.svd(true, false)` of the ZCA branch: `U` and the singular values
+pub fn svd_u_s(sigma: Array2<f64>) -> Option<(Array2<f64>, Array1<f64>)> {
+    let (u, s, _) = sigma.svd(true, false).ok()?;
+    Some((u?, s))
+}
